@@ -9,7 +9,51 @@ import (
 
 func init() { generators["C20"] = genC20 }
 
+// c20Call emits one SimplifyFlatCoords case.
+func c20Call(e *Emitter, stride int, thr float64, flat []float64) {
+	in := []float64(slot(0, flat...))
+	done := false
+	var idx, idx2 []int
+	e.emitR("C20.simplify", fmt.Sprintf("(%d %s %s)", stride, hexF(thr), sxCoord(flat)), func() string {
+		if !done {
+			idx = xy.SimplifyFlatCoords(in, thr, stride)
+			var flat2 []float64
+			for _, k := range idx {
+				flat2 = append(flat2, in[k*stride:(k+1)*stride]...)
+			}
+			idx2 = xy.SimplifyFlatCoords(flat2, thr, stride)
+			done = true
+		}
+		return fmt.Sprintf("(%s %s)", sxInts(idx), sxInts(idx2))
+	})
+}
+
 func genC20(r *Rng, e *Emitter, n int) {
+	// state that survives between calls and wraps around: a zigzag line that keeps every point, then
+	// G other calls, then a straight line of the same size that keeps none — for every G around 2^8
+	// (and, in the thorough tier, 2^16)
+	{
+		zig := []float64{0, 0, 1, 5, 2, 0, 3, 5, 4, 0, 5, 5, 6, 0, 7, 5, 8, 0}
+		straight := []float64{0, 0, 1, 0, 2, 0, 3, 0, 4, 0, 5, 0, 6, 0, 7, 0, 8, 0}
+		filler := []float64{0, 0, 1, 1, 2, 0}
+		gaps := []int{}
+		for g := 248; g <= 262; g++ {
+			gaps = append(gaps, g)
+		}
+		if n >= 100000 {
+			for g := 65528; g <= 65540; g++ {
+				gaps = append(gaps, g)
+			}
+		}
+		for _, g := range gaps {
+			c20Call(e, 2, 1, zig)
+			for k := 0; k < g; k++ {
+				xy.SimplifyFlatCoords(filler, 0.5, 2)
+			}
+			c20Call(e, 2, 1, straight)
+			e.tally("wrap-around-gap")
+		}
+	}
 	for i := 0; i < n; i++ {
 		stride := 2 + r.Intn(4)
 		size := r.Intn(12)
@@ -94,6 +138,7 @@ func genC20(r *Rng, e *Emitter, n int) {
 		}
 		in := []float64(slot(0, flat...)) // the caller's buffer is reused for every call
 		done := false
+		short := ""
 		var idx, idx2 []int
 		e.emitR("C20.simplify", fmt.Sprintf("(%d %s %s)", stride, hexF(thr), sxCoord(flat)), func() string {
 			if !done {
@@ -104,6 +149,20 @@ func genC20(r *Rng, e *Emitter, n int) {
 				}
 				idx2 = xy.SimplifyFlatCoords(flat2, thr, stride)
 				done = true
+				if size < 3 {
+					// the index slice belongs to the caller, who may renumber it in place (parts of a
+					// multi-geometry); rendered first, and for these short cases not re-read later
+					short = fmt.Sprintf("(%s %s)", sxInts(idx), sxInts(idx2))
+					for q := range idx {
+						idx[q] += 1000
+					}
+					for q := range idx2 {
+						idx2[q] += 2000
+					}
+				}
+			}
+			if short != "" {
+				return short
 			}
 			return fmt.Sprintf("(%s %s)", sxInts(idx), sxInts(idx2))
 		})
